@@ -10,6 +10,7 @@ mod c12;
 mod c14;
 mod c15;
 mod c17;
+mod c18;
 pub mod xsched;
 pub mod world;
 pub mod io;
